@@ -306,8 +306,8 @@ GOOD_LOCS = [
     ("http://[1:2:3:4:5:6:7::]/t", ADDR6),                # trailing ::
     ("http://[::2:3]/l", ADDR6),                          # leading ::
 ]
-# locations the LIBRARY accepts (they start with "http" and contain none of its three substrings) but the property text
-# forbids or cannot read as an http(s) URL with a host: open finding F03a / F04a.  Only used in dedicated histories.
+# regression corpus of the fixed findings F03a / F04a: locations the library used to accept (they start with "http" and
+# contain none of its former three substrings) although the property text forbids them or they are no http(s) URL with a host
 TEXT_BAD_LOCS = ["http://127.0.0.2:80/d", "http://user@127.0.0.1/d", "http://[0:0:0:0:0:0:0:1]/d", "http://[::0001]/d",
                  "http://localhost/d", "http://user@169.254.7.7/d", "http://[::ffff:169.254.7.7]/d", "httpx://192.168.1.7/d",
                  "http-but-not-a-url", "http://[fe80::1/", "http://127.9.9.9:1/", "http://[::ffff:127.0.0.1]/", "http:///nohost",
@@ -493,13 +493,13 @@ def many_devices_history(rng, ndev: int) -> List[Any]:
 
 
 def f03a_history(rng) -> List[Any]:
-    """one or two messages whose location the library accepts and the text forbids (open finding F03a / F04a)"""
+    """one or two messages whose location the library used to accept although the text forbids it (fixed F03a / F04a)"""
     ts = rng.randrange(0, 5) * SEC
     loc = rng.choice(TEXT_BAD_LOCS)
     addr = ADDR4
     if rng.random() < 0.15:
-        # an IPv4 link-local location announced by a scoped IPv6 sender is rewritten by get_adjusted_url to
-        # http://[169.254.7.7%3]/d, which no longer contains the substring "://169.254" and is accepted
+        # an IPv4 link-local location announced by a scoped IPv6 sender used to be rewritten by get_adjusted_url to
+        # http://[169.254.7.7%3]/d, which did not contain the substring "://169.254" and was accepted
         loc, addr = "http://169.254.7.7/d", ADDR6LL
     udn = rng.choice(UDNS)
     ty = rng.choice(TYPES)
